@@ -236,11 +236,35 @@ func (e *Engine) Run(h History) (*Mismatch, error) {
 			}
 			ctx.Resp = e.resp[op.Conn]
 		}
+		if ctx.Resp != 3 {
+			// whatever the command and whatever the model says about it: a connection that has not
+			// switched to RESP3 never sees a RESP3-only type, at any depth of the reply
+			if path, kind := resp3Only(g, "reply"); path != "" {
+				return &Mismatch{Index: i, Op: op.String(), Why: fmt.Sprintf("RESP3 type '%c' at %s on a connection that speaks RESP2", kind, path), History: h}, nil
+			}
+		}
 		if err := matchReply(ms, g, ctx); err != nil {
 			return &Mismatch{Index: i, Op: op.String(), Why: err.Error(), History: h}, nil
 		}
 	}
 	return nil, nil
+}
+
+// first RESP3-only node of a reply: its path and type byte
+func resp3Only(n *Node, path string) (string, byte) {
+	if n == nil {
+		return "", 0
+	}
+	switch n.Kind {
+	case '%', '~', ',', '#', '(', '=', '_', '!', '>', '|':
+		return path, n.Kind
+	}
+	for i, e := range n.Elems {
+		if p, k := resp3Only(e, fmt.Sprintf("%s[%d]", path, i)); p != "" {
+			return p, k
+		}
+	}
+	return "", 0
 }
 
 func waitDead(s *Server, d time.Duration) bool {
